@@ -25,6 +25,7 @@ CHECKS = {
     'C10': 'harness.c10',
     'C12': 'harness.c12',
     'C19': 'harness.c19',
+    'C20': 'harness.c20',
 }
 
 
@@ -62,7 +63,7 @@ def main() -> int:
     mod = importlib.import_module(CHECKS[args.prop])
     try:
         if args.replay:
-            return mod.replay(args.replay)
+            return (getattr(mod, 'replay_file', None) or mod.replay)(args.replay)
         return mod.run(args.tier)
     except tlc.TLCError as exc:
         return machinery_failure(args.prop, str(exc))
